@@ -195,10 +195,70 @@ def rule_shape(prog, rep):
                     "SameResponseShape: for field types of kind %s and %s the code %s, the rule is: %s (%d of 16 kind pairs differ) - e.g. `[Int]!` and `[Int]` under the same response name must conflict" % (ka, kb, "/".join(got), want, len(bad)), f.loc())
 
 
+def rule_nested(prog, rep):
+    """C17.NESTED: All Variable Uses Defined holds at any depth of a value.  In
+    value_of_correct_type every way of accepting a composite literal (a List or an Object)
+    visits the nested values - by recursion or by a function that reports UndefinedVariable -
+    or reports the literal itself; an arm that accepts the composite as it stands (`any value is
+    valid for a custom scalar`) lets `{k: $undefined}` through."""
+    from ..flow import loop_body, loop_headers, must_pass
+    rep.floor("C17.NESTED", 2)
+    f = prog.fn(r"^apollo_compiler::validation::value::value_of_correct_type$")
+    sites = construction_sites(prog)
+    direct = set(sites.get("UndefinedVariable", set()))
+    visitors = {f.uid}
+    for u in direct:
+        g = prog.fns[u]
+        if any("ast::Value" in (t or "") for t in (g.d.get("sig_in") or [])):
+            visitors.add(u)
+
+    def closure_visits(c):
+        """a combinator call (for_each, ...) whose closure argument visits the nested values"""
+        for a in c.args:
+            m = re.search(r"closure:.*?(\{closure#\d+\})", f.sym(a))
+            if not m:
+                continue
+            for h in prog.fns.values():
+                if h.kind == "closure" and h.parent == f.uid and h.name.endswith(m.group(1)) and any(k.uid in visitors for k in h.live_calls()):
+                    return True
+        return False
+
+    through = set()
+    for c in f.live_calls():
+        if c.uid in visitors or closure_visits(c):
+            through.add(c.block)
+        elif re.search(r"::unsupported_type$|DiagnosticList::push$", c.name):
+            through.add(c.block)
+    hs = loop_headers(f)
+    for h in hs:
+        if loop_body(f, h, hs) & through:
+            through.add(h)
+    sw = None
+    for b in sorted(f.live_blocks()):
+        info = f.switch_info(b)
+        if info and info.get("kind") == "enum" and info["adt"].endswith("ast::Value") and re.search(r"arg4", f.sym(["c", info["place"]])):
+            sw = info
+            break
+    if sw is None:
+        raise Undecided("value_of_correct_type: the switch on the kind of the value was not found")
+    for v in ("List", "Object"):
+        t = sw["edges"].get(v, sw["otherwise"] if v in sw["rest"] else None)
+        if t is None:
+            raise Undecided("value_of_correct_type: no arm for Value::%s" % v)
+        passed, leak = must_pass(f, [t], f.return_blocks(), through)
+        rep.obligation(passed)
+        if passed:
+            rep.instance("C17.NESTED", "Value::%s: every accepting path visits the nested values (or reports the literal)" % v)
+        else:
+            rep.finding("C17.NESTED", f.name, "accepts-unvisited:" + v,
+                        "value_of_correct_type has a path that accepts a Value::%s without visiting the values nested in it: a variable used there (`{k: $undefined}` given to a custom scalar) is never checked against the operation's variable definitions (spec 5.8.3 All Variable Uses Defined)" % v, f.loc())
+
+
 def run(prog, rep):
     rule_registry(prog, rep)
     rule_scope(prog, rep)
     rule_shape(prog, rep)
+    rule_nested(prog, rep)
     # verdict conditions decided under sibling properties: IsVariableUsageAllowed / AreTypesCompatible
     # (C29), the type inline fragments are validated against (C18), completeness of the
     # fragment-cycle search (C21)
